@@ -135,6 +135,13 @@ def file_token(rng, kind, seqs, maxmsg):
         if 24 + len(pad) + len(inner) > maxmsg:
             return frame(9, b'', seq, src)
         return frame(13120, pad + inner, seq, src)
+    if kind == 'N':   # known class, payload shorter than the class expects (CRC-valid, does not deserialise)
+        cands = [x for x in class_payloads() if 8 < len(x[2]) and len(x[2]) + 24 <= maxmsg + 8]
+        if cands:
+            t, _, p, v = rng.choice(cands)
+            return frame(t, p[:len(p) - rng.choice([1, 4, 8])], seq, src, v)
+        kind = 'U'
+        return file_token(rng, 'U', seqs, maxmsg)
     if kind == 'C':
         m = bytearray(file_token(rng, 'U', seqs, maxmsg))
         i = rng.randrange(2, len(m))
@@ -169,7 +176,7 @@ def file_token(rng, kind, seqs, maxmsg):
     raise ValueError(kind)
 
 
-def small_file(rng, ntokens, maxmsg, alphabet='VVUUWCTSFJ', pad=0):
+def small_file(rng, ntokens, maxmsg, alphabet='VVUUWCTSFJN', pad=0):
     seqs = {'n': 0}
     parts = []
     kinds = []
